@@ -128,11 +128,13 @@ def build_harness(cfg, log):
         t0 = time.time()
         if not os.path.exists(os.path.join(HARN, "Cargo.lock")):
             shutil.copyfile("/repo/Cargo.lock", os.path.join(HARN, "Cargo.lock"))
-        r = sh(["cargo", "build", "--offline", "-p", cfg["harness"]], cwd=HARN, timeout=7200)
+        # the target dir is fixed explicitly: an inherited CARGO_TARGET_DIR must not redirect the build
+        cenv = {"CARGO_TARGET_DIR": TARGET}
+        r = sh(["cargo", "build", "--offline", "-p", cfg["harness"]], cwd=HARN, timeout=7200, env=cenv)
         if r.returncode != 0 and re.search(r"lock file|failed to select a version|--offline", r.stdout or ""):
             # /repo's dependency set changed: restart resolution from /repo's own lock file
             shutil.copyfile("/repo/Cargo.lock", os.path.join(HARN, "Cargo.lock"))
-            r = sh(["cargo", "build", "--offline", "-p", cfg["harness"]], cwd=HARN, timeout=7200)
+            r = sh(["cargo", "build", "--offline", "-p", cfg["harness"]], cwd=HARN, timeout=7200, env=cenv)
         log.append(f"cargo build -p {cfg['harness']}: rc={r.returncode} ({time.time()-t0:.1f}s)")
         return r.returncode == 0, (r.stdout or "")[-6000:]
 
